@@ -195,19 +195,19 @@ type ViolationOut struct {
 }
 
 type WorkerOut struct {
-	Worker     int                `json:"worker"`
-	Cases      int                `json:"cases"`
-	EnumCases  int                `json:"enum_cases"`
-	EnumTotal  int                `json:"enum_total"`
-	Stats      CaseStats          `json:"stats"`
-	Nontrivial int                `json:"nontrivial_cases"`
-	Violations []ViolationOut     `json:"violations"`
-	ClassCount map[string]int     `json:"class_count"`
-	Harness    []string           `json:"harness"`
-	Samples    []interface{}      `json:"samples"`
-	WallS      float64            `json:"wall_s"`
-	MaxHeapMB  int                `json:"max_heap_mb"`
-	TraceHash  map[string]string  `json:"trace_hashes,omitempty"`
+	Worker     int               `json:"worker"`
+	Cases      int               `json:"cases"`
+	EnumCases  int               `json:"enum_cases"`
+	EnumTotal  int               `json:"enum_total"`
+	Stats      CaseStats         `json:"stats"`
+	Nontrivial int               `json:"nontrivial_cases"`
+	Violations []ViolationOut    `json:"violations"`
+	ClassCount map[string]int    `json:"class_count"`
+	Harness    []string          `json:"harness"`
+	Samples    []interface{}     `json:"samples"`
+	WallS      float64           `json:"wall_s"`
+	MaxHeapMB  int               `json:"max_heap_mb"`
+	TraceHash  map[string]string `json:"trace_hashes,omitempty"`
 }
 
 func mergeStats(dst *CaseStats, src *CaseStats) {
@@ -508,14 +508,14 @@ func tailStr(s string, n int) string {
 // driver
 
 type KnownFinding struct {
-	Property string `json:"property"`
-	Rule     string `json:"rule"`
-	Match    string `json:"match"`
+	Property string   `json:"property"`
+	Rule     string   `json:"rule"`
+	Match    string   `json:"match"`
 	MatchAll []string `json:"match_all,omitempty"`
 	Exclude  []string `json:"exclude,omitempty"`
-	What     string `json:"what"`
-	Status   string `json:"status"`
-	Commit   string `json:"commit,omitempty"`
+	What     string   `json:"what"`
+	Status   string   `json:"status"`
+	Commit   string   `json:"commit,omitempty"`
 }
 
 type KnownFile struct {
@@ -1011,29 +1011,29 @@ func writeEvidence(verifDir, prop, tier string, seed uint64, total *WorkerOut, d
 		return float64(n) / wall * 3600
 	}
 	cov := map[string]interface{}{
-		"evaluations":               total.Cases,
-		"distinct_nontrivial":       distinct,
-		"rule":                      propRules[prop],
-		"samples":                   total.Samples,
-		"simulated_runs":            st.Runs,
-		"runs_per_hour":             perHour(st.Runs),
-		"seeds_per_hour":            perHour(total.Cases),
-		"controller_steps":          st.Steps,
-		"simulated_time_s":          st.SimTime.Seconds(),
-		"stream_attempts":           st.Attempts,
-		"transactions_delivered":    st.Deliveries,
-		"faults_fired":              st.Faults,
-		"reach_probes":              st.Probes,
-		"enumerated_cases":          total.EnumCases,
-		"enumeration_space":         total.EnumTotal,
-		"nontrivial_cases":          total.Nontrivial,
-		"workers":                   nw,
-		"max_worker_heap_mb":        total.MaxHeapMB,
-		"violation_classes_seen":    classes,
-		"known_findings_hit":        knownHits,
-		"real_components":           []string{"gobinlog (Streamer, parser, slave connection)", "gobinlog/replication (all decoders)", "Breeze0806/mysql (connector, handshake, auth, packet framing, read buffer, watcher, Close)", "Breeze0806/go/log"},
-		"simulated_components":      []string{"TCP (in-memory net.Conn with segmentation, FIN, RST, deadlines on the fake clock)", "MySQL master (handshake, COM_QUERY, COM_BINLOG_DUMP, dump thread)", "table mapper", "transaction handler", "caller context", "clock (testing/synctest)"},
-		"exhaustive":                false,
+		"evaluations":            total.Cases,
+		"distinct_nontrivial":    distinct,
+		"rule":                   propRules[prop],
+		"samples":                total.Samples,
+		"simulated_runs":         st.Runs,
+		"runs_per_hour":          perHour(st.Runs),
+		"seeds_per_hour":         perHour(total.Cases),
+		"controller_steps":       st.Steps,
+		"simulated_time_s":       st.SimTime.Seconds(),
+		"stream_attempts":        st.Attempts,
+		"transactions_delivered": st.Deliveries,
+		"faults_fired":           st.Faults,
+		"reach_probes":           st.Probes,
+		"enumerated_cases":       total.EnumCases,
+		"enumeration_space":      total.EnumTotal,
+		"nontrivial_cases":       total.Nontrivial,
+		"workers":                nw,
+		"max_worker_heap_mb":     total.MaxHeapMB,
+		"violation_classes_seen": classes,
+		"known_findings_hit":     knownHits,
+		"real_components":        []string{"gobinlog (Streamer, parser, slave connection)", "gobinlog/replication (all decoders)", "Breeze0806/mysql (connector, handshake, auth, packet framing, read buffer, watcher, Close)", "Breeze0806/go/log"},
+		"simulated_components":   []string{"TCP (in-memory net.Conn with segmentation, FIN, RST, deadlines on the fake clock)", "MySQL master (handshake, COM_QUERY, COM_BINLOG_DUMP, dump thread)", "table mapper", "transaction handler", "caller context", "clock (testing/synctest)"},
+		"exhaustive":             false,
 	}
 	if race != nil {
 		cov["race_mode"] = race
